@@ -196,6 +196,28 @@ pub fn scenarios(_tier: &str) -> Vec<Scenario> {
             s.fin = FinPlan::Never;
         });
     }
+    // many drain rounds: a body far larger than the write buffer, always ready, socket always writable
+    add("get-many-rounds-smallbuf", vec![RequestSpec::new("GET", 0)], vec![big_stream(2_000, 24)], &|s| s.config.write_buf = 1024);
+    add("get-many-rounds-default-buf", vec![RequestSpec::new("GET", 0)], vec![big_stream(40_000, 14)], &nop);
+    add("get-many-rounds-sized", vec![RequestSpec::new("GET", 0)], vec![HandlerProgram::ok(BodySpec::SizedStream(48_000, (0..24).map(|i| Chunk::Data(data(2_000, i as u8))).collect()))], &|s| s.config.write_buf = 1024);
+    // the handler sits on a large chunked upload (channel paused), more body arrives meanwhile, then
+    // it drops the payload unread and answers; the rest of the body and a second request follow
+    for (n, plan) in [("drops", PayloadPlan::DropAtStart), ("reads", PayloadPlan::ReadAllThenRespond)] {
+        add(&format!("paused-upload-then-{n}"), vec![RequestSpec::new("POST", 0).chunked((0..10).map(|i| ChunkSpec::plain(&data(10_000, i))).collect()), RequestSpec::new("GET", 1)],
+            vec![ok_bytes().until(500).plan(plan.clone()), ok_bytes()], &|s| {
+            let st = s.stream();
+            let he = st.spans[0].1;
+            let end0 = st.spans[0].2;
+            s.segments = vec![
+                Segment { when: When::Start, from: 0, to: he + 45_000 },
+                Segment { when: When::At(250), from: he + 45_000, to: he + 60_000 },
+                Segment { when: When::At(750), from: he + 60_000, to: end0 - 3 },
+                Segment { when: When::At(1000), from: end0 - 3, to: st.bytes.len() },
+            ];
+            s.env.horizon_ms = 1500;
+            s.env.budgets = vec![("read", 20), ("write", 10), ("flush", 6), ("env", 30), ("envq", 10), ("shutdown", 2)];
+        });
+    }
     // request bodies
     add("post-cl-readall", vec![RequestSpec::new("POST", 0).cl(&data(64, 1))], vec![ok_bytes()], &nop);
     add("post-chunked-readall", vec![RequestSpec::new("POST", 0).chunked(vec![ChunkSpec::plain(&data(10, 1)), ChunkSpec::plain(&data(7, 2))])], vec![ok_bytes()], &nop);
